@@ -157,9 +157,23 @@ Trim(s) == TrimEnd(TrimStart(s))
 (* case mapping: ASCII and the Latin-1 letters with a one-to-one mapping;   *)
 (* all other code points of KnownChar have no case                          *)
 Caseless == {133, 8195, 12288, 8232, 8364, 20013, 128512, 66376, 2047, 2048, 65533}
-KnownChar(c) == c < 128 \/ (c >= 160 /\ c <= 254 /\ c \notin {170, 181, 186, 223}) \/ c \in Caseless
-Lower(c) == IF (c >= 65 /\ c <= 90) \/ (c >= 192 /\ c <= 222 /\ c # 215) THEN c + 32 ELSE c
-Upper(c) == IF (c >= 97 /\ c <= 122) \/ (c >= 224 /\ c <= 254 /\ c # 247) THEN c - 32 ELSE c
+(* Letters beyond Latin-1 with a one-to-one mapping (Unicode simple case     *)
+(* mapping = what Rust's char::to_lowercase / to_uppercase give for them):   *)
+(* <<code point, lower, upper>>.  The digraphs come in three forms, upper     *)
+(* (DZ), TITLE (Dz: neither an upper-case nor a lower-case letter, yet both  *)
+(* conversions change it) and lower (dz).                                    *)
+CaseTable == { <<452, 454, 452>>, <<453, 454, 452>>, <<454, 454, 452>>,     \* U+01C4 DZ-caron, U+01C5 Dz, U+01C6 dz
+               <<455, 457, 455>>, <<456, 457, 455>>, <<457, 457, 455>>,     \* LJ Lj lj
+               <<497, 499, 497>>, <<498, 499, 497>>, <<499, 499, 497>>,     \* DZ Dz dz
+               <<913, 945, 913>>, <<945, 945, 913>>,                         \* Greek Alpha / alpha
+               <<1040, 1072, 1040>>, <<1072, 1072, 1040>> }                  \* Cyrillic A / a
+InCaseTable(c) == \E e \in CaseTable : e[1] = c
+CaseEntry(c) == CHOOSE e \in CaseTable : e[1] = c
+KnownChar(c) == c < 128 \/ (c >= 160 /\ c <= 254 /\ c \notin {170, 181, 186, 223}) \/ c \in Caseless \/ InCaseTable(c)
+Lower(c) == IF InCaseTable(c) THEN CaseEntry(c)[2]
+            ELSE IF (c >= 65 /\ c <= 90) \/ (c >= 192 /\ c <= 222 /\ c # 215) THEN c + 32 ELSE c
+Upper(c) == IF InCaseTable(c) THEN CaseEntry(c)[3]
+            ELSE IF (c >= 97 /\ c <= 122) \/ (c >= 224 /\ c <= 254 /\ c # 247) THEN c - 32 ELSE c
 Known(s) == \A k \in 1..Len(s) : KnownChar(s[k])
 ToLower(s) == [k \in 1..Len(s) |-> Lower(s[k])]
 ToUpper(s) == [k \in 1..Len(s) |-> Upper(s[k])]
